@@ -396,7 +396,7 @@ def run_loopback(ctx):
     for L, P, n in ((16384, 4096, 7000), (65536, 1024, 30000), (0, 2048, 20000), (16384, 16384, 7000), (4096, 16384, 7000)):
         ctx.case(('exact-peer', L, P, n), L != P, labels=['loopback-exact-peer'], sample={'own': L, 'peer announces': P, 'match bytes': n})
         try:
-            loopback_exact_peer(L, P, n)
+            lb.reproduced(loopback_exact_peer, L, P, n)
         except lb.Inconclusive:
             ctx.inconclusive += 1
         except Violation as v:
